@@ -7,5 +7,6 @@ Extraction "n2model.ml" canon_impl canon sem ends_dirlike normal_form uses_only 
   depfile_parse depfile_parse_pinned depfile_deps depfile_deps_pinned format_parse_error
   truncate task_message task_message_pinned progress_bar mkCounts utf8_ok
   extract_showincludes extract_showincludes_pinned find_last_line decode_status
+  load_manifest remove_duplicates evaluate parser_read
   db_open write_build loaded_for signature
   run_phase run_phase_main select_targets bs_new want_targets accepts first_rejected get_state.
